@@ -8,6 +8,7 @@
 From BV Require Import Word.
 From Coq Require Import String.
 Open Scope string_scope.
+Open Scope N_scope.
 
 Inductive binop :=
 | BAdd | BSub | BMul | BDiv | BRem | BShl | BShr | BAnd | BOr | BXor   (* on usize *)
@@ -122,17 +123,11 @@ Fixpoint eval (ft : fntab) (fuel : nat) (en : env) (e : expr) {struct fuel} : ou
   | O => Stuck
   | S fuel =>
     let ev := eval ft fuel in
-    (* call of a closure or of a function passed by name, with one argument *)
-    let apply1 := fun (f : val) (a : val) =>
-      match f with
-      | VClo x body => ev ((x, a) :: en) body
-      | _ => Stuck
-      end in
     let call := fun (f : string) (args : list val) =>
       match lookup f ft with
       | Some d =>
           if Nat.eqb (List.length (fn_params d)) (List.length args) then
-            match ev (List.combine (fn_params d) args ++ en) (fn_body d) with
+            match ev (List.app (List.combine (fn_params d) args) en) (fn_body d) with
             | Early v => Ret v
             | o => o
             end
@@ -219,10 +214,10 @@ Fixpoint eval (ft : fntab) (fuel : nat) (en : env) (e : expr) {struct fuel} : ou
 Definition FUEL_SEM : nat := 200.
 
 (* run a function of the table on argument values, in an environment of constants / self fields *)
-Definition run (ft : fntab) (consts : env) (f : string) (args : list val) : outcome :=
+Definition call_fn (ft : fntab) (consts : env) (f : string) (args : list val) : outcome :=
   match lookup f ft with
   | Some d =>
-      match eval ft FUEL_SEM (List.combine (fn_params d) args ++ consts) (fn_body d) with
+      match eval ft FUEL_SEM (List.app (List.combine (fn_params d) args) consts) (fn_body d) with
       | Early v => Ret v
       | o => o
       end
